@@ -921,6 +921,18 @@ class HierOps:
                 st, c = call(lambda: fresh in obj)
                 if st == 'ok' and c is not False:
                     fail(o, f'fresh label membership -> {c!r}')
+                # non-members assembled from held level labels
+                held = set(exp)
+                seen = 0
+                for a in m.raw[:4]:
+                    for b in m.raw[-4:]:
+                        t = a[:-1] + (b[-1],)
+                        if norm_t(t) in held or seen > 12:
+                            continue
+                        seen += 1
+                        st, c = call(lambda: t in obj)
+                        if st == 'ok' and c is not False:
+                            fail(o, f'tuple {t!r} is not held but reported as a member')
             return
         if P == 'C05':
             o = 'C05.grow' if (pend or (e.go and e.extra.get('last_growth'))) else 'C05.views'
